@@ -656,7 +656,61 @@ fn exact_reference(clock: i128, inc: i128, mtg: Option<u32>) -> (f64, u128) {
     }
 }
 
+/// The deadline test itself (shared by both threads): out_of_time(start, t) must say whether at least t ms have
+/// passed since `start`. Asked on the real clock with back-dated start stamps, so that hours of elapsed time
+/// cost nothing: every elapsed time of a grid (0 .. the machine's uptime; around 2^32 us, one second, one hour)
+/// against slices just below it (expired), well above it (not expired), zero and astronomically large.
+pub fn deadline_predicate(rep: &Report) -> u64 {
+    use std::time::{Duration, Instant};
+    let elapsed_ms: [u64; 24] = [0, 1, 10, 500, 999, 1000, 1001, 1999, 2000, 2001, 59_999, 60_000, 61_000, 3_599_000, 3_600_000, 4_294_000, 4_294_967, 4_294_968, 4_296_000, 4_300_000, 8_589_935, 10_000_000, 36_000_000, 86_400_000];
+    let mut asked = 0u64;
+    let mut skipped = Vec::new();
+    for &e in &elapsed_ms {
+        let start = match Instant::now().checked_sub(Duration::from_millis(e)) {
+            Some(s) => s,
+            None => {
+                skipped.push(e);
+                continue; // the monotonic clock of this machine does not reach back that far
+            }
+        };
+        let e = e as u128;
+        let mut cases: Vec<(u128, bool)> = vec![(e + 2_000, false), (e + 60_000, false), (e * 2 + 5_000, false), (1u128 << 64, false), ((1u128 << 64) + e, false), (u128::MAX, false), (u128::MAX - 49, false), (1u128 << 32, e >= (1u128 << 32)), (1u128 << 31, e >= (1u128 << 31))];
+        if e >= 1 {
+            cases.push((e, true));
+            cases.push((e / 2, true));
+            cases.push((1, true));
+        }
+        if e >= 100 {
+            cases.push((e - 50, true));
+        }
+        for (t, want) in cases {
+            // (1<<32 and 1<<31 ms are only decided when the elapsed time is clearly on one side)
+            if (t == 1u128 << 32 || t == 1u128 << 31) && (e as i128 - t as i128).abs() < 5_000 {
+                continue;
+            }
+            asked += 1;
+            let got = match catch_unwind(AssertUnwindSafe(|| crate::utils::out_of_time(start, t))) {
+                Ok(g) => g,
+                Err(p) => {
+                    rep.fail("C08", "deadline-test-panics", format!("out_of_time(start = now - {} ms, {} ms) panicked: {}", e, t, panic_text(p)), J::obj().set("kind", J::s("deadline-predicate")).set("elapsed_ms", J::s(&e.to_string())).set("slice_ms", J::s(&t.to_string())));
+                    continue;
+                }
+            };
+            if got != want {
+                let (prop, sig) = if want { ("C08", "deadline-not-seen-after-it-has-passed") } else { ("C09", "deadline-seen-before-it-has-passed") };
+                rep.fail(prop, sig, format!("{} ms after the start stamp, out_of_time(start, {} ms) says {}", e, t, got), J::obj().set("kind", J::s("deadline-predicate")).set("elapsed_ms", J::s(&e.to_string())).set("slice_ms", J::s(&t.to_string())));
+            }
+        }
+    }
+    if !skipped.is_empty() {
+        rep.note(format!("deadline predicate: elapsed times {:?} ms are beyond this machine's monotonic clock and were skipped", skipped));
+    }
+    rep.add("deadline_predicate_questions", asked);
+    asked
+}
+
 pub fn run_c09(rep: &Report) -> i32 {
+    deadline_predicate(rep);
     let big: [i128; 23] = [
         -(1i128 << 100),
         -1_000_000,
@@ -1143,6 +1197,64 @@ pub fn run_c15(rep: &Report, cli: Option<&dyn Fn(&[String], &Report) -> u64>) ->
         }
         rep.add("unusual_spellings_of_well_formed_fens", spellings.len() as u64);
         rep.add("unusual_spellings_accepted_and_compared", accepted_spellings);
+    }
+    // every material a game can produce at the promotion limit: all base pieces, 8-k pawns and k promoted pieces
+    // distributed over knight, bishop, rook and queen in every way (up to ten knights, bishops or rooks, nine
+    // queens), for either colour against a bare king and against the same material
+    {
+        let mut vectors: Vec<[usize; 5]> = Vec::new(); // pawns, N, B, R, Q
+        for en in 0..=8usize {
+            for eb in 0..=8 - en {
+                for er in 0..=8 - en - eb {
+                    for eq in 0..=8 - en - eb - er {
+                        let promoted = en + eb + er + eq;
+                        vectors.push([8 - promoted, 2 + en, 2 + eb, 2 + er, 1 + eq]);
+                    }
+                }
+            }
+        }
+        let place = |p: &mut Pos, color: u8, v: &[usize; 5]| {
+            // own half of the board, pawns from the second rank on, pieces behind and in front of them
+            let ranks: Vec<i8> = if color == rules::WHITE { vec![1, 2, 3, 0] } else { vec![6, 5, 4, 7] };
+            let mut squares: Vec<u8> = Vec::new();
+            for r in &ranks {
+                for f in 0..8i8 {
+                    squares.push(rules::sq_at(f, *r).unwrap());
+                }
+            }
+            let king_sq = rules::sq_at(4, if color == rules::WHITE { 0 } else { 7 }).unwrap();
+            p.b[king_sq as usize] = rules::pc(color, rules::K);
+            let mut it = squares.into_iter().filter(|s| *s != king_sq);
+            for (kind, n) in [(rules::P, v[0]), (rules::N, v[1]), (rules::B, v[2]), (rules::R, v[3]), (rules::Q, v[4])] {
+                for _ in 0..n {
+                    let sq = it.next().expect("room for fifteen men");
+                    p.b[sq as usize] = rules::pc(color, kind);
+                }
+            }
+        };
+        let mut loaded = 0u64;
+        for v in &vectors {
+            for heavy in [rules::WHITE, rules::BLACK] {
+                for both in [false, true] {
+                    let mut p = Pos::empty();
+                    place(&mut p, heavy, v);
+                    if both {
+                        place(&mut p, heavy ^ 1, v);
+                    } else {
+                        p.b[rules::sq_at(4, if heavy == rules::WHITE { 7 } else { 0 }).unwrap() as usize] = rules::pc(heavy ^ 1, rules::K);
+                    }
+                    for stm in [rules::WHITE, rules::BLACK] {
+                        p.stm = stm;
+                        if p.is_legal_position() {
+                            check_faithful(&p, 0, 40);
+                            loaded += 1;
+                        }
+                    }
+                }
+            }
+        }
+        rep.add("promotion_limit_material_vectors", vectors.len() as u64);
+        rep.add("promotion_limit_material_fens_loaded", loaded);
     }
     let rejected = rejected.into_inner().unwrap();
     let mut validated = 0;
